@@ -8,6 +8,7 @@ import (
 	"math/rand"
 	"os"
 	"runtime/debug"
+	"sort"
 	"testing"
 	"time"
 
@@ -62,6 +63,8 @@ import (
 //          8 Evict j      arbitrator.Filter(pod of j); if true, Add j  (what Reconciler.Evict does)
 //          9 SetPodState p v   1: delete the pod (it stays, terminating, held by a finalizer);
 //                              2 / 3: phase Failed / Succeeded; 0: phase Running
+//         10 Restart          a fresh arbitratorImpl + filter (empty waiting collection and arbitrated
+//                              map); the informer's initial list is replayed as Create events
 //   pod state (initial): 0 running, 1 terminating, 2 Failed, 3 Succeeded
 // observable per op:  for every job 1..J (phase|-1 if not in the API, passed annotation, in
 //          waitingCollection, in arbitrated map), then the Filter result (-1 when not a Filter/Evict op)
@@ -335,28 +338,33 @@ func vtC16ArbExec(in []int64) []int64 {
 	kc := kubefake.NewSimpleClientset()
 	vtC16Discovery(&kc.Fake)
 	handle := &vtC16Handle{cs: kc, inf: informers.NewSharedInformerFactory(kc, 0)}
-	f := &filter{
-		client:                     fc,
-		clock:                      clock.RealClock{},
-		args:                       args,
-		controllerFinder:           &vtC16Finder{real: &controllerfinder.ControllerFinder{Client: fc}, replicas: replicas},
-		arbitratedPodMigrationJobs: map[types.UID]bool{},
+	// one arbitrator instance, built the way New() builds it
+	newInstance := func() (*filter, *arbitratorImpl) {
+		nf := &filter{
+			client:                     fc,
+			clock:                      clock.RealClock{},
+			args:                       args,
+			controllerFinder:           &vtC16Finder{real: &controllerfinder.ControllerFinder{Client: fc}, replicas: replicas},
+			arbitratedPodMigrationJobs: map[types.UID]bool{},
+		}
+		if err := nf.initFilters(args, handle); err != nil {
+			panic(err)
+		}
+		na := &arbitratorImpl{
+			waitingCollection: map[types.UID]*v1alpha1.PodMigrationJob{},
+			sorts: []SortFn{
+				SortJobsByCreationTime(),
+				SortJobsByPod(sorter.PodSorter().Sort),
+				SortJobsByController(),
+				SortJobsByMigratingNum(fc),
+			},
+			filter:        nf,
+			client:        fc,
+			eventRecorder: &events.FakeRecorder{},
+		}
+		return nf, na
 	}
-	if err := f.initFilters(args, handle); err != nil {
-		panic(err)
-	}
-	a := &arbitratorImpl{
-		waitingCollection: map[types.UID]*v1alpha1.PodMigrationJob{},
-		sorts: []SortFn{
-			SortJobsByCreationTime(),
-			SortJobsByPod(sorter.PodSorter().Sort),
-			SortJobsByController(),
-			SortJobsByMigratingNum(fc),
-		},
-		filter:        f,
-		client:        fc,
-		eventRecorder: &events.FakeRecorder{},
-	}
+	f, a := newInstance()
 	h := NewHandler(a, fc)
 	q := workqueue.NewTypedRateLimitingQueue(workqueue.DefaultTypedControllerRateLimiter[reconcile.Request]())
 	defer q.ShutDown()
@@ -495,6 +503,17 @@ func vtC16ArbExec(in []int64) []int64 {
 					}
 				}
 			}
+		case 10:
+			f, a = newInstance()
+			h = NewHandler(a, fc)
+			list := &v1alpha1.PodMigrationJobList{}
+			if err := fc.List(ctx, list); err != nil {
+				panic(err)
+			}
+			sort.Slice(list.Items, func(i, j int) bool { return list.Items[i].Name < list.Items[j].Name })
+			for i := range list.Items {
+				h.Create(ctx, event.TypedCreateEvent[client.Object]{Object: &list.Items[i]}, q)
+			}
 		case 7:
 			if pod := getPod(int(x)); pod != nil {
 				res = vtB(a.Filter(pod))
@@ -621,11 +640,28 @@ func vtC16ArbGen(r *rand.Rand, idx int) (string, []int64) {
 		}
 	}
 	r.Shuffle(len(ops), func(a, b int) { ops[a], ops[b] = ops[b], ops[a] })
+	// jobs that are already Running although this arbitrator never admitted them and they carry no
+	// annotation (started by an older version / by hand): they must still count against every budget
+	if r.Intn(3) == 0 {
+		for k := 0; k < 1+r.Intn(2); k++ {
+			j := int64(1 + r.Intn(nj))
+			ops = append([][3]int64{{1, j, 0}, {3, j, 1}}, ops...)
+		}
+	}
 	extra := 3 + r.Intn(8)
 	for k := 0; k < extra; k++ {
 		j := int64(1 + r.Intn(nj))
 		p := int64(1 + r.Intn(np))
-		switch r.Intn(14) {
+		switch r.Intn(15) {
+		case 14:
+			// restart / leader change, usually with a new job arriving right after it
+			ops = append(ops, [3]int64{10, 0, 0})
+			if r.Intn(2) == 0 {
+				ops = append(ops, [3]int64{1, j, 0})
+			}
+			if r.Intn(2) == 0 {
+				ops = append(ops, [3]int64{2, 0, 0}, [3]int64{1, int64(1 + r.Intn(nj)), 0})
+			}
 		case 12, 13:
 			// a replica is torn down / fails between two rounds (e.g. the pod of a job that just completed)
 			ops = append(ops, [3]int64{9, p, []int64{1, 1, 2, 3, 0}[r.Intn(5)]})
